@@ -392,3 +392,67 @@ func ruleBitsetPair(c *Ctx) {
 		c.ok("bitset:no-delete", g.insFn.Pos(), "the set has no delete operation")
 	}
 }
+
+// ---------------------------------------------------------------- R-GSAP-WINEXACT
+
+func init() {
+	reg(&Rule{ID: "R-GSAP-WINEXACT", Min: 1,
+		Doc: "GSAP rejects a candidate for its offset only if the offset is not positive or exceeds WindowSize: an offset equal to WindowSize is inside the window — the six sibling parsers and the decoder accept it — and the candidate at that distance is the longest match available",
+		Run: ruleGsapWinExact})
+}
+
+func ruleGsapWinExact(c *Ctx) {
+	g := c.gsapOrFail("gsap:window-exact")
+	if g == nil {
+		return
+	}
+	fi := g.fi
+	L := g.scan.L
+	fn := g.scan.Fn
+	n := 0
+	for _, e := range g.scan.Emits {
+		off := fi.lin(stripConv(e.Offset))
+		// rejecting edges: conditional edges in the scan loop that mention WindowSize and from which the emission
+		// cannot be reached without passing the header
+		for _, b := range fn.Blocks {
+			if !L.Blocks[b] {
+				continue
+			}
+			iff, ok := b.Instrs[len(b.Instrs)-1].(*ssa.If)
+			if !ok {
+				continue
+			}
+			mentions := false
+			for _, f := range fi.factsOf([]Cond{{iff.Cond, true}}) {
+				for a := range f.L.t {
+					if hasSuffixAtom(a, ".WindowSize") {
+						mentions = true
+					}
+				}
+			}
+			if !mentions {
+				continue
+			}
+			for si, sc := range b.Succs {
+				if fi.reachAvoidBoth(sc, L.Header, L.Header)[e.Block] || sc == e.Block {
+					continue
+				}
+				n++
+				key := fmt.Sprintf("%s:window-reject#%d:exact", fnName(fn), n)
+				conds := append(append([]Cond{}, fi.condsAt(b)...), Cond{iff.Cond, si == 0})
+				ok := false
+				for _, w := range fi.atomsWithSuffix(".WindowSize") {
+					// rejected ⇒ o ≥ WindowSize + 1, i.e. WindowSize + 1 − o ≤ 0
+					if fi.proveLE0(linAtom(w).addc(1).sub(off), conds, nil, map[string]bool{}, 0) {
+						ok = true
+					}
+				}
+				c.check(ok, key, iff.Cond.Pos(), "a candidate is rejected by the window test only when its offset exceeds WindowSize",
+					"the window test also rejects an offset equal to WindowSize (the rejection is not shown to imply Offset > WindowSize): the candidate at that distance is inside the window — the other six parsers and the decoder accept it — and the position becomes a literal or gets a shorter match")
+			}
+		}
+	}
+	if n == 0 {
+		c.fail(fnName(fn)+":window-reject:exact", fn.Pos(), "no window test found in the scan loop")
+	}
+}
